@@ -90,6 +90,9 @@ impl Options {
 ///
 /// This will block until the compactor is fully finished.
 pub fn do_compaction(opts: &Options) -> crate::Result<()> {
+    #[cfg(feature = "verif")]
+    crate::verif::sched("compaction:start");
+
     #[expect(clippy::expect_used, reason = "lock is expected to not be poisoned")]
     let compaction_state = opts.compaction_state.lock().expect("lock is poisoned");
 
@@ -186,6 +189,9 @@ fn move_tables(
     opts: &Options,
     payload: &CompactionPayload,
 ) -> crate::Result<()> {
+    #[cfg(feature = "verif")]
+    crate::verif::sched("move_tables");
+
     #[expect(clippy::expect_used, reason = "lock is expected to not be poisoned")]
     let mut version_history_lock = opts.version_history.write().expect("lock is poisoned");
 
@@ -487,6 +493,9 @@ fn merge_tables(
     // IMPORTANT: Unlock exclusive compaction lock as we are now doing the actual (CPU-intensive) compaction
     drop(compaction_state);
 
+    #[cfg(feature = "verif")]
+    crate::verif::sched("merge:unlocked");
+
     hidden_guard(payload, opts, || {
         for (idx, item) in merge_iter.enumerate() {
             let item = item?;
@@ -505,6 +514,9 @@ fn merge_tables(
     if let Some(filter) = compaction_filter {
         filter.finish();
     }
+
+    #[cfg(feature = "verif")]
+    crate::verif::sched("merge:before_finish");
 
     #[expect(clippy::expect_used, reason = "lock is expected to not be poisoned")]
     let mut compaction_state = opts.compaction_state.lock().expect("lock is poisoned");
@@ -572,6 +584,9 @@ fn drop_tables(
     opts: &Options,
     ids_to_drop: &[TableId],
 ) -> crate::Result<()> {
+    #[cfg(feature = "verif")]
+    crate::verif::sched("drop_tables");
+
     #[expect(clippy::expect_used, reason = "lock is expected to not be poisoned")]
     let mut version_history_lock = opts.version_history.write().expect("lock is poisoned");
 
